@@ -13,8 +13,10 @@ import (
 	"pgregory.net/rapid"
 
 	"github.com/tink-crypto/tink-go/v2/aead"
+	"github.com/tink-crypto/tink-go/v2/aead/aesgcm"
 	"github.com/tink-crypto/tink-go/v2/daead"
 	"github.com/tink-crypto/tink-go/v2/hybrid"
+	"github.com/tink-crypto/tink-go/v2/internal/primitiveregistry"
 	"github.com/tink-crypto/tink-go/v2/internal/protoserialization"
 	"github.com/tink-crypto/tink-go/v2/jwt"
 	"github.com/tink-crypto/tink-go/v2/key"
@@ -178,6 +180,12 @@ func checkIDs(t *rapid.T, what string, i *keys.Info, k key.Key) {
 
 func checkSerialization(t *rapid.T, what string, i *keys.Info, k key.Key) {
 	ks, err := protoserialization.SerializeKey(k)
+	if i.NoSerialization {
+		if err == nil {
+			t.Fatalf("%s: %s: marked NoSerialization but SerializeKey succeeded", i, what)
+		}
+		return
+	}
 	if err != nil {
 		t.Fatalf("%s: %s: SerializeKey: %v", i, what, err)
 	}
@@ -339,6 +347,17 @@ func handles(t *rapid.T, i *keys.Info) (priv, pub *keyset.Handle) {
 // usePrimitive obtains the class primitive through the public factory and does one round trip.
 func usePrimitive(t *rapid.T, i *keys.Info) {
 	h, pubH := handles(t, i)
+	// The key type's own primitive constructor (no legacy key-manager fallback) must agree with the
+	// metadata: it accepts exactly the usable keys and those that only fail at use.
+	for _, k := range []key.Key{i.Key, i.Public} {
+		if k == nil {
+			continue
+		}
+		_, perr := primitiveregistry.Primitive(k)
+		if want := i.Usable || i.FailsAt == keys.FailsAtUse; (perr == nil) != want {
+			t.Fatalf("%s: primitive constructor for %T returned err=%v, metadata says accepted=%v", i, k, perr, want)
+		}
+	}
 	msg := gen.Bytes(t, "msg", 300)
 	aad := gen.Bytes(t, "aad", 40)
 	fail := func(step string, err error) {
@@ -348,6 +367,27 @@ func usePrimitive(t *rapid.T, i *keys.Info) {
 	switch i.Class {
 	case keys.AEAD:
 		p, err := aead.New(h)
+		if i.FailsAt == keys.FailsAtConstructor {
+			// AES-GCM with unserializable IV / tag sizes: the key's own constructor refuses, the factory
+			// falls back to the key manager and hands out a 12/16 primitive.
+			if _, derr := aesgcm.NewAEAD(i.Key.(*aesgcm.Key)); derr == nil {
+				t.Fatalf("%s: marked as refused by aesgcm.NewAEAD, but it returned a primitive", i)
+			}
+			if err != nil {
+				t.Fatalf("%s: expected the key-manager fallback to succeed, got %v", i, err)
+			}
+			ct, err := p.Encrypt(msg, aad)
+			if err != nil {
+				fail("Encrypt (fallback)", err)
+			}
+			if len(ct) != len(i.OutputPrefix())+12+len(msg)+16 || !bytes.HasPrefix(ct, i.OutputPrefix()) {
+				t.Fatalf("%s: fallback ciphertext has %d bytes for a %d byte message", i, len(ct), len(msg))
+			}
+			if pt, err := p.Decrypt(ct, aad); err != nil || !bytes.Equal(pt, msg) {
+				t.Fatalf("%s: fallback Decrypt: %x, %v", i, pt, err)
+			}
+			return
+		}
 		if !i.Usable {
 			expectFailure(t, i, err, never)
 			return
